@@ -336,7 +336,7 @@ def proto_rule(ctx):
                 vs = [v for v in sir.pat_variants(a["pat"]) if v in kind_level]
                 if not vs:
                     continue
-                toks = es.linearize(a["body"])
+                toks = es.linearize(a["body"], top=True)
                 # top-level statements of the arm (not inside nested function literals)
                 letters_used = set()
                 for st in top_level_statements(toks):
@@ -515,7 +515,7 @@ def family_rule(ctx):
                     got |= callees_of({"k": "block", "stmts": [{"k": "expr", "e": n, "sp": n["sp"]}], "sp": n["sp"]})
             if want == "E.2":
                 # generics: written inside the `E(tag,{..},` object
-                text = es.show(es.linearize(arm["body"]))
+                text = es.show(es.linearize(arm["body"], top=True))
                 ok = re.search(r"E\(.*\{.*\[for %s" % re.escape(b), text) is not None or ("for %s.iter" % b) in text
                 obs.append(ob(key, ok, where, "generics are written into the 2nd argument of E(): %s" % ok))
                 continue
